@@ -14,6 +14,10 @@ pub static mut REC_CALLS: usize = 0;
 pub static mut REC_SETS: [u64; REC_N] = [0; REC_N];
 pub static mut REC_YIELDED: [u8; REC_N] = [0; REC_N];
 pub static mut REC_CURSOR: usize = 0;
+/// MIRRORED REPLAY (colour-symmetry obligations): when set, the k-th non-empty loop must iterate the vertical flip of the
+/// set the k-th non-empty loop of the recorded run iterated, and it yields the flip of the member yielded then
+pub static mut REPLAY_MIRROR: bool = false;
+pub static mut REPLAY_CURSOR: usize = 0;
 
 pub fn one_shot_square_next(it: &mut SquareIterator) -> Option<Square> {
     // the iterator is exhausted after this call on EVERY path (so that symbolic execution sees a constant)
@@ -21,6 +25,15 @@ pub fn one_shot_square_next(it: &mut SquareIterator) -> Option<Square> {
     it.0 = Bitboard::EMPTY;
     if cur.is_empty() {
         return None;
+    }
+    if unsafe { REPLAY_MIRROR } {
+        unsafe {
+            assert!(REPLAY_CURSOR < REC_CALLS, "the mirrored run has a non-empty loop the first run did not have");
+            assert!(cur.as_u64() == REC_SETS[REPLAY_CURSOR].swap_bytes(), "the mirrored run iterates the mirrored set");
+            let s = Square::from_index(REC_YIELDED[REPLAY_CURSOR] ^ 56);
+            REPLAY_CURSOR += 1;
+            return Some(s);
+        }
     }
     let s = geo::any_square();
     kani::assume(cur.contains(s));
@@ -37,6 +50,22 @@ pub fn rec_reset() {
     unsafe {
         REC_CALLS = 0;
         REC_CURSOR = 0;
+        REPLAY_MIRROR = false;
+        REPLAY_CURSOR = 0;
+    }
+}
+/// start the mirrored replay of the run recorded so far
+pub fn replay_mirrored() {
+    unsafe {
+        REPLAY_MIRROR = true;
+        REPLAY_CURSOR = 0;
+    }
+}
+/// the mirrored run had exactly as many non-empty loops as the recorded one
+pub fn replay_done() {
+    unsafe {
+        assert!(REPLAY_CURSOR == REC_CALLS, "the first run has a non-empty loop the mirrored run did not have");
+        REPLAY_MIRROR = false;
     }
 }
 
